@@ -527,6 +527,23 @@ impl<T: Eq + Hash> FrequentItemsSketch<T> {
                 .ok_or_else(|| Error::deserial("sum of item weights overflows u64"))?;
         }
 
+        // weights are signed 64-bit in the Java/C++ format
+        if stream_weight > i64::MAX as u64 {
+            return Err(Error::deserial(format!(
+                "stream weight {stream_weight} exceeds i64::MAX"
+            )));
+        }
+        // every purge moves at least as much weight out of the counters as it adds to the offset,
+        // so counters plus offset never exceed the stream weight; `count + offset` relies on it
+        match values_sum.checked_add(offset_val) {
+            Some(accounted) if accounted <= stream_weight => {}
+            _ => {
+                return Err(Error::deserial(format!(
+                    "item weights {values_sum} plus offset {offset_val} exceed the stream weight {stream_weight}"
+                )));
+            }
+        }
+
         let items = deserialize_items(cursor, active_items)?;
         if items.len() != active_items {
             return Err(Error::deserial(
